@@ -28,6 +28,16 @@ let rec gen_body depth ntgt =
     | 4 | 5 -> if depth > 0 then Spawn (gen_body (depth - 1) ntgt, rnd 2 = 0) else Yield
     | 6 | 7 -> Resume (nat_of_int (rnd ntgt))
     | _ -> Yield)
+(* bodies for the extended model (Model/SchedY.v): yield_to of any object in the mix *)
+let rec gen_bodyY depth ntgt =
+  let len = rnd 5 in
+  List.init len (fun _ ->
+    match rnd 11 with
+    | 0 -> Yield | 1 -> YieldBoost | 2 -> Suspend | 3 -> Register
+    | 4 | 5 -> if depth > 0 then Spawn (gen_bodyY (depth - 1) ntgt, rnd 2 = 0) else Yield
+    | 6 | 7 -> Resume (nat_of_int (rnd ntgt))
+    | 8 | 9 -> YieldTo (nat_of_int (rnd ntgt))
+    | _ -> Yield)
 let () =
   try
     while true do
@@ -63,6 +73,27 @@ let () =
         Printf.printf "OUT MRUN %s ok=%d idle=%d lost=%d ntasks=%d ninc=%d\n" id
           (if mon_ok tnn c then 1 else 0) (if idle_b tnn c then 1 else 0)
           (if lost_wakeup_b tnn c then 1 else 0) (int_of_nat (fst c).ntasks) (int_of_nat (fst c).ninc)
+      | ["IN"; "MRUNY"; id; seed; nthreads; steps] ->
+        (* the extended model with yield_to: weakened handle invariant + nothing dropped *)
+        lcg := int_of_string seed * 7919 + 23;
+        let tn = int_of_string nthreads in
+        let next = 2 + rnd 2 in
+        let ntgt = 6 in
+        let progs = Array.init next (fun _ ->
+          List.init (2 + rnd 4) (fun _ ->
+            if rnd 3 = 0 then Resume (nat_of_int (rnd ntgt)) else Spawn (gen_bodyY 2 ntgt, rnd 2 = 0))) in
+        let ext = fun t -> let i = int_of_nat t in if i < next then Some progs.(i) else None in
+        let sched = List.init (int_of_string steps) (fun _ ->
+          (nat_of_int (rnd tn), { oi = nat_of_int (rnd 4); ob = (rnd 3 <> 0); oh = nat_of_int (rnd 3) })) in
+        let tnn = nat_of_int tn in
+        (* the monitor is evaluated in the middle of the run and after a round-robin tail *)
+        let c1 = sched_runY sched ext in
+        let tail = List.concat (List.init 400 (fun k ->
+          List.init tn (fun a -> (nat_of_int a, { oi = nat_of_int 0; ob = (k mod 2 = 0); oh = nat_of_int (k mod 3) })))) in
+        let c = sched_runY (sched @ tail) ext in
+        Printf.printf "OUT MRUNY %s ok=%d idle=%d ntasks=%d ninc=%d\n" id
+          (if monY_ok tnn c1 && monY_ok tnn c then 1 else 0) (if idleY_b tnn c then 1 else 0)
+          (int_of_nat (fst c).ntasks) (int_of_nat (fst c).ninc)
       | _ -> ()
     done
   with End_of_file -> ()
